@@ -71,6 +71,15 @@ def escape_obligations(ctx, rule, repo, entry, tolerant, allowed_families, what)
                       construct=cons, trivial=True)
             continue
         ent = rev.get('%s|%s' % (w[3], cls))
+        if ent is None or w[1][:60] not in ent['raises']:
+            # the same reviewed raise statement moved into a helper of the same class / module
+            scope = w[3].rsplit('.', 1)[0] if '.' in w[3] else ''
+            for k_, e_ in rev.items():
+                q_, c_ = k_.rsplit('|', 1)
+                if c_ == cls and w[1][:60] in e_['raises'] and \
+                        (q_.rsplit('.', 1)[0] if '.' in q_ else '') == scope:
+                    ent = e_
+                    break
         if ent is not None and w[1][:60] in ent['raises']:
             ctx.holds(rule, mod, node, 'reviewed: ' + ent['reason'], construct=cons)
             continue
